@@ -9,7 +9,7 @@ from __future__ import annotations
 
 from typing import Any, Callable, cast
 
-from exabgp.protocol.family import SAFI
+from exabgp.protocol.family import AFI, SAFI
 
 from exabgp.configuration.core import Section
 from exabgp.configuration.core import Parser
@@ -108,6 +108,7 @@ def route(tokeniser: Any) -> list[Route]:
     flow_nlri = Flow.make_flow()
     attributes = AttributeCollection()
     nexthop: IP = IP.NoNextHop  # Track nexthop separately
+    tokeniser.afi = AFI.undefined  # a new rule: not the family the previous command left behind
 
     while True:
         command: str = tokeniser()
